@@ -913,7 +913,14 @@ def unroll_constant_loops(tree):
                     if not (isinstance(st, ast.For) and not st.orelse):
                         continue
                     rows = _const_table(st.iter, consts)
-                    if rows is None or any(isinstance(x, (ast.Break, ast.Continue)) for x in ast.walk(st)):
+                    # `... ; if T: break` as the last statement of the body: unrolled as nested `if not T:` blocks
+                    tail_break = None
+                    if rows is not None and st.body and isinstance(st.body[-1], ast.If) and not st.body[-1].orelse and len(st.body[-1].body) == 1 \
+                            and isinstance(st.body[-1].body[0], ast.Break):
+                        others = [x for s2 in st.body[:-1] for x in ast.walk(s2) if isinstance(x, (ast.Break, ast.Continue))]
+                        if not others and not any(isinstance(x, (ast.Break, ast.Continue)) for x in ast.walk(st.body[-1].test)):
+                            tail_break = st.body[-1]
+                    if rows is None or (tail_break is None and any(isinstance(x, (ast.Break, ast.Continue)) for x in ast.walk(st))):
                         continue
                     tg = st.target
                     names = [tg] if isinstance(tg, ast.Name) else (list(tg.elts) if isinstance(tg, (ast.Tuple, ast.List)) and all(
@@ -931,19 +938,30 @@ def unroll_constant_loops(tree):
                     for s2 in st.body:
                         body_locals |= _names_stored(s2)
                     # a body-local name that is read after the loop would change meaning when suffixed: leave such loops alone
+                    # (with a trailing `if T: break` such names are the running flags: they are kept unsuffixed instead)
                     after = b[i:]
-                    if any(isinstance(x, ast.Name) and x.id in body_locals for s2 in after for x in ast.walk(s2)):
+                    after_names = {x.id for s2 in after for x in ast.walk(s2) if isinstance(x, ast.Name) and x.id in body_locals}
+                    if after_names and tail_break is None:
                         continue
                     out = []
-                    for r in rows:
+                    cursor = out
+                    for ri, r in enumerate(rows):
                         counter[0] += 1
                         vals = [r] if len(names) == 1 else list(r.elts)
                         mapping = {n.id: v for n, v in zip(names, vals)}
-                        rename = {x: f"{x}_u{counter[0]}" for x in body_locals}
-                        for s2 in st.body:
+                        # names that are read after the loop (a running flag such as `same`) keep their spelling
+                        rename = {x: f"{x}_u{counter[0]}" for x in body_locals if not (tail_break is not None and x in after_names)}
+                        body_stmts = st.body if tail_break is None else st.body[:-1]
+                        for s2 in body_stmts:
                             c2 = _Subst(mapping, rename).visit(copy.deepcopy(s2))
                             ast.copy_location(c2, s2)
-                            out.append(c2)
+                            cursor.append(c2)
+                        if tail_break is not None and ri < len(rows) - 1:
+                            t2 = _Subst(mapping, rename).visit(copy.deepcopy(tail_break.test))
+                            nxt = ast.If(test=negate(t2), body=[], orelse=[])
+                            ast.copy_location(nxt, tail_break)
+                            cursor.append(nxt)
+                            cursor = nxt.body
                     b[i - 1:i] = out
                     i = i - 1 + len(out)
     _GetAttr().visit(tree)
@@ -951,7 +969,13 @@ def unroll_constant_loops(tree):
 
 
 class _FoldConst(ast.NodeTransformer):
-    """'underflow' + ':type' -> 'underflow:type' (string/int constants only)"""
+    """'underflow' + ':type' -> 'underflow:type' (string/int constants only); `A if True else B` -> A"""
+
+    def visit_IfExp(self, n):
+        self.generic_visit(n)
+        if isinstance(n.test, ast.Constant) and isinstance(n.test.value, bool):
+            return n.body if n.test.value else n.orelse
+        return n
 
     def visit_BinOp(self, n):
         self.generic_visit(n)
@@ -1355,6 +1379,107 @@ def boolify_tests(tree):
     ast.fix_missing_locations(tree)
 
 
+def fold_type_normalisations(tree):
+    """N23  `if [not] isinstance(v, T): v = E`   ->   `v = E if [not] isinstance(v, T) else v`
+    the type-normalisation idiom (`if isinstance(x, numpy.ndarray): x = x.tolist()`), written as the conditional expression it is:
+    the statement is then on every path, and the analyses take the branch their abstract value selects"""
+    for node in ast.walk(tree):
+        for fld in ("body", "orelse"):
+            b = getattr(node, fld, None)
+            if not (isinstance(b, list) and b and isinstance(b[0], ast.stmt)):
+                continue
+            for i, st in enumerate(b):
+                if not (isinstance(st, ast.If) and not st.orelse and len(st.body) == 1 and isinstance(st.body[0], ast.Assign)
+                        and len(st.body[0].targets) == 1 and isinstance(st.body[0].targets[0], ast.Name)):
+                    continue
+                t = st.test
+                core = t.operand if isinstance(t, ast.UnaryOp) and isinstance(t.op, ast.Not) else t
+                v = st.body[0].targets[0].id
+                if not (isinstance(core, ast.Call) and isinstance(core.func, ast.Name) and core.func.id == "isinstance" and len(core.args) == 2
+                        and isinstance(core.args[0], ast.Name) and core.args[0].id == v):
+                    continue
+                new = ast.Assign(targets=[ast.Name(id=v, ctx=ast.Store())],
+                                 value=ast.IfExp(test=t, body=st.body[0].value, orelse=ast.Name(id=v, ctx=ast.Load())))
+                ast.copy_location(new, st)
+                new.end_lineno, new.end_col_offset = getattr(st, "end_lineno", st.lineno), getattr(st, "end_col_offset", st.col_offset)
+                b[i] = new
+    ast.fix_missing_locations(tree)
+
+
+def forward_adjacent_flags(tree):
+    """N25  `flag = E` ; `if [not] flag: ...`   ->   `if [not] E: ...`     when the flag is read nowhere else: nothing happens between the
+    two statements, so E may be impure.  And `if not C: A` ; rest  (A always exits)   ->   `if C: rest` / `else: A`."""
+    from .canon import positive_form
+    for fn in ast.walk(tree):
+        if not isinstance(fn, (ast.FunctionDef, ast.AsyncFunctionDef)):
+            continue
+        counts = {}
+        for x in ast.walk(fn):
+            if isinstance(x, ast.Name):
+                c0 = counts.setdefault(x.id, [0, 0])
+                c0[0 if isinstance(x.ctx, ast.Store) else 1] += 1
+        for node in ast.walk(fn):
+            for fld in ("body", "orelse"):
+                b = getattr(node, fld, None)
+                if not (isinstance(b, list) and len(b) >= 2 and isinstance(b[0], ast.stmt)):
+                    continue
+                i = 0
+                while i + 1 < len(b):
+                    st, nx = b[i], b[i + 1]
+                    if isinstance(st, ast.Assign) and len(st.targets) == 1 and isinstance(st.targets[0], ast.Name) and isinstance(nx, ast.If) \
+                            and counts.get(st.targets[0].id) == [1, 1] and isinstance(st.value, (ast.BoolOp, ast.Compare, ast.Call, ast.UnaryOp)):
+                        v = st.targets[0].id
+                        t = nx.test
+                        core = t.operand if isinstance(t, ast.UnaryOp) and isinstance(t.op, ast.Not) else t
+                        if isinstance(core, ast.Name) and core.id == v:
+                            if core is t:
+                                nx.test = st.value
+                            else:
+                                t.operand = st.value
+                            del b[i]
+                            continue
+                    i += 1
+        for node in ast.walk(fn):
+            for fld in ("body", "orelse"):
+                b = getattr(node, fld, None)
+                if not (isinstance(b, list) and len(b) >= 2 and isinstance(b[0], ast.stmt)):
+                    continue
+                for i, st in enumerate(b[:-1]):
+                    if isinstance(st, ast.If) and not st.orelse and positive_form(st.test) is not None and always_exits(st.body) \
+                            and not (len(st.body) == 1 and isinstance(st.body[0], ast.Raise)) and always_exits(b[i + 1:]) \
+                            and not any(isinstance(x, (ast.FunctionDef, ast.ClassDef)) for x in b[i + 1:]):
+                        st.test = positive_form(st.test)
+                        st.orelse = st.body
+                        st.body = b[i + 1:]
+                        del b[i + 1:]
+                        break
+    ast.fix_missing_locations(tree)
+
+
+def sink_flag_returns(tree):
+    """N24  `if flag: B` ; `return flag`   ->   `if flag: B ; return flag` / `else: return flag`     (recursively)
+    a running conjunction flag that is tested before every further comparison: with the return duplicated into the branches, the
+    exit taken when the flag is already false is a separate (rejecting) exit"""
+    changed = True
+    rounds = 0
+    while changed and rounds < 12:
+        changed = False
+        rounds += 1
+        for node in ast.walk(tree):
+            for fld in ("body", "orelse"):
+                b = getattr(node, fld, None)
+                if not (isinstance(b, list) and len(b) >= 2 and isinstance(b[0], ast.stmt)):
+                    continue
+                st, rt = b[-2], b[-1]
+                if isinstance(st, ast.If) and not st.orelse and isinstance(st.test, ast.Name) and isinstance(rt, ast.Return) and \
+                        isinstance(rt.value, ast.Name) and rt.value.id == st.test.id and not always_exits(st.body):
+                    st.body.append(copy.deepcopy(rt))
+                    st.orelse = [copy.deepcopy(rt)]
+                    del b[-1]
+                    changed = True
+    ast.fix_missing_locations(tree)
+
+
 def flatten_boolops(tree):
     """`a and (b and c)` -> `a and b and c` (same value, same evaluation order, same short circuit)"""
     changed = True
@@ -1396,6 +1521,9 @@ def apply(tree, helpers=True):
     eliminate_attribute_aliases(tree)
     forward_pure_flags(tree)
     sink_alias_selection(tree)
+    fold_type_normalisations(tree)
+    forward_adjacent_flags(tree)
+    sink_flag_returns(tree)
     flatten_boolops(tree)
     ast.fix_missing_locations(tree)
     return tree
